@@ -36,6 +36,7 @@ ASSUMPTIONS = [
     "-i with an explicit `-`; sys.argv[0] when the program comes from stdin with no arguments at all (Hy: sys.argv == []; Python: [''])",
     "-E is observed (PYTHON* variables removed from os.environ) but not judged when given; without -E the environment must be untouched",
     "sys.argv in REPL mode (no program) is not judged",
+    "sys.argv[0] of a script may be the name as given or its full path (Python's sys.argv documentation leaves this open)",
     "(a) judges sys.argv[0] only for -c, script and `-` (with -m it is set by runpy, which is replaced); (b) judges it in all four modes",
     "(b) stderr is only searched for the expected exception line",
 ]
@@ -282,7 +283,8 @@ def judge_argv(args, tty, ref, obs):
     elif argv[1:] != ref["args"]:
         bad("cli-program-arguments-wrong", "a:args:%s" % mode, "sys.argv[1:] == %r, expected %r" % (argv[1:], ref["args"]), mode=mode)
     elif mode in ("command", "file") or (mode == "stdin" and not ref["implicit_stdin"]):
-        if argv[:1] != [ref["argv0"]]:
+        full = mode == "file" and argv[:1] and os.path.realpath(argv[0]) == os.path.realpath(os.path.join(obs["cwd"], ref["target"]))
+        if argv[:1] != [ref["argv0"]] and not full:
             bad("cli-argv0-wrong", "a:argv0:%s" % mode, "sys.argv[0] == %r, expected %r" % (argv[:1], ref["argv0"]), mode=mode)
     # flags
     if main["B"] != ref["B"]:
@@ -396,6 +398,10 @@ def judge_mode(prog, args, mode, r):
     elif mode == "m":
         if os.path.realpath(argv[0]) != os.path.realpath(argv0):
             problems.append(dict(kind="cli-argv0-wrong", sig="b:argv0:m", detail="sys.argv[0] == %r, expected the module's file %r\n%s" % (argv[0], argv0, ctx), **where))
+    elif mode == "file":
+        # "argv[0] is the script name (it is operating system dependent whether this is a full pathname or not)" — Python's sys.argv docs
+        if argv[0] != argv0 and os.path.realpath(argv[0]) != os.path.realpath(r["abspath"]):
+            problems.append(dict(kind="cli-argv0-wrong", sig="b:argv0:file", detail="sys.argv[0] == %r, expected the script name %r (or its full path)\n%s" % (argv[0], argv0, ctx), **where))
     elif argv[0] != argv0:
         problems.append(dict(kind="cli-argv0-wrong", sig="b:argv0:%s" % mode, detail="sys.argv[0] == %r, expected %r\n%s" % (argv[0], argv0, ctx), **where))
     if name != "__main__":
@@ -460,11 +466,11 @@ def snippet(d):
     c = d["case"]
     if c["part"] == "a":
         return ("# in a directory where the script-like tokens exist as files:\n"
-                f"import subprocess; print(subprocess.run(['hy'] + {c['argv']!r}, capture_output=True, text=True, input='(print \"from stdin\")'))\n"
+                f"import subprocess, sys; print(subprocess.run([sys.executable, '-m', 'hy'] + {c['argv']!r}, capture_output=True, text=True, input='(print \"from stdin\")'))\n"
                 f"# reference (CPython-style parse): {C.parse(list(c['argv']), c['tty'])!r}\n")
     argv, stdin = C.command_line(c["prog"], c["mode"], c["args"], "rc_prog.hy", "rc-prog")
-    return ("import subprocess\n"
+    return ("import subprocess, sys\n"
             f"open('rc_prog.hy', 'w').write({C.PROGRAMS[c['prog']][0]!r})\n"
-            f"p = subprocess.run(['hy'] + {argv!r}, input={stdin!r}, capture_output=True, text=True)\n"
+            f"p = subprocess.run([sys.executable, '-m', 'hy'] + {argv!r}, input={stdin!r}, capture_output=True, text=True)\n"
             "print(p.returncode, p.stdout, p.stderr[-500:])\n"
             "# C41: same stdout and exit status as under the other modes; sys.argv[1:] are the trailing arguments\n")
